@@ -1,10 +1,48 @@
 import MazeVerif.DriverOps.Util
+import MazeVerif.Model.RngTrace
 namespace MZ.Drv.C04
-open Lean MZ.Drv
+open Lean MZ.Drv MZ.Rng
 
-/-- driver ops of property C04 (`"op": "C04.<name>"`) -/
-def handle (op : String) (_j : Json) : R Json := do
+def asRng (s : String) : R RngId :=
+  match s with
+  | "py" => pure .py
+  | "np" => pure .np
+  | "torch" => pure .torch
+  | "np_gen" => pure .npGen
+  | k => throw s!"unknown rng {k}"
+
+def asEvent (j : Json) : R Event := do
+  match (← j.getArr?).toList with
+  | [k, r, s] =>
+    if (← k.getStr?) = "seed" then pure (.seed (← asRng (← r.getStr?)) (← s.getNat?)) else throw "event: seed expected"
+  | [k, r] =>
+    if (← k.getStr?) = "draw" then pure (.draw (← asRng (← r.getStr?))) else throw "event: draw expected"
+  | _ => throw "event: expected [kind, rng(, seed)]"
+
+def asCell (j : Json) : R CfgCell := do
+  pure ⟨← getNat j "seed", ← (← getArr j "filters").mapM (·.getStr?), ← getNat j "n_mazes"⟩
+def jCfgCell (c : CfgCell) : Json := obj [("seed", jNat c.seed), ("filters", jStrs c.filters), ("n_mazes", jNat c.nMazes)]
+
+/-- ops:
+    `C04.trace` {events:[["seed",rng,s]|["draw",rng]…], seed} → {well_seeded, first_unseeded, seeds_ok, seeds, draws}
+        (the executable `wsTrace` / `firstUnseeded` / `seedsAre` of the model on a RECORDED trace of the real code);
+    `C04.heap` {heap:[{seed,filters,n_mazes}…], req, n_after} → {heap, addr} (`fromConfigHeap`). -/
+def handle (op : String) (j : Json) : R Json := do
   match op with
+  | "C04.trace" =>
+    let evs ← (← getArr j "events").mapM asEvent
+    let s ← getNat j "seed"
+    let none0 : RngId → Bool := fun _ => false
+    let fu := firstUnseeded none0 evs 0
+    pure <| obj [("well_seeded", wsTrace none0 evs), ("first_unseeded", match fu with | some i => jNat i | none => Json.null),
+                 ("seeds_ok", seedsAre s evs),
+                 ("seeds", jNat (evs.filter (fun e => match e with | .seed _ _ => true | _ => false)).length),
+                 ("draws", jNat (evs.filter (fun e => match e with | .draw _ => true | _ => false)).length)]
+  | "C04.heap" =>
+    let heap ← (← getArr j "heap").mapM asCell
+    match fromConfigHeap heap (← getNat j "req") (← getNat j "n_after") with
+    | none => pure <| obj [("heap", Json.null)]
+    | some (h, a) => pure <| obj [("heap", jList jCfgCell h), ("addr", jNat a)]
   | _ => throw s!"unknown op {op}"
 
 end MZ.Drv.C04
